@@ -108,7 +108,7 @@ package backend
 // first, so "the first record" is the newest version at or below R (composed by hand, DESIGN.md).
 //@ pred first_is_version_of(key) = rec_n >= 1 && it_pos == 1 && rec_rev[0] != 0 && bytes_eq(rec_key[0][4:len(rec_key[0])-9], key)
 //@ func (*backend).getInternalVal(ctx, key, revision) (val, modRevision, err)
-//@   props C03
+//@   props C03 C20
 //@   requires wf_backend(b)
 //@   modifies inferred:(*backend).getInternalVal
 //@   ensures [asks-for-the-versions-of-this-key-at-or-below-R-newest-first] err == nil || it_pos == 1 ==> is_enc(it_lo, key, ite(revision == 0, MaxUint64, revision)) && is_enc(it_hi, key, uint64(0))
@@ -117,7 +117,7 @@ package backend
 //@   ensures [nothing-else-is-returned] err != nil ==> is_nil(val) && modRevision == 0
 
 //@ func (*backend).get(ctx, key, revision) (val, modRevision, err)
-//@   props C03
+//@   props C03 C20
 //@   requires wf_backend(b)
 //@   modifies inferred:(*backend).get
 //@   ensures [not-found-is-error] is_nil(val) && err == nil ==> false
@@ -127,7 +127,7 @@ package backend
 //@   ensures [nothing-else-is-returned] err == nil ==> first_is_version_of(key) && val == rec_val[0] && modRevision == rec_rev[0]
 
 //@ func (*backend).Get(ctx, r) (resp, err)
-//@   props C03 C02
+//@   props C03 C02 C20
 //@   requires wf_backend(b) && r != nil
 //@   modifies inferred:(*backend).Get
 //@   ensures [a-live-version-is-returned-as-stored] first_is_version_of(r.Key) && !bytes_eq(rec_val[0], tombStoneBytes) ==> err == nil && resp != nil && resp.Kv != nil && resp.Kv.Key == r.Key && resp.Kv.Value == rec_val[0] && resp.Kv.Revision == rec_rev[0]
@@ -137,7 +137,7 @@ package backend
 
 // ---- C03: the limited list, end to end ----
 //@ func (*backend).List(ctx, r) (resp, err)
-//@   props C03
+//@   props C03 C20
 //@   requires wf_backend(b) && b.scanner != nil && r != nil && !batch_open
 //@   requires [limit-fits] r.Limit < 0x1000000000000
 //@   modifies inferred:(*backend).List ghost.bw_n ghost.bw_kind ghost.bw_key ghost.bw_val ghost.bw_old ghost.bw_ttl ghost.commits ghost.last_batch ghost.last_err ghost.batch_open ghost.floor ghost.floor_set
@@ -455,6 +455,12 @@ package backend
 //@   nosafety
 //@   requires wf_backend(b) && b.watchCache != nil && b.asyncFifoRetry != nil
 //@   modifies *
+// the goroutine that unsubscribes a cancelled watcher asks DeleteWatcher to take the lock itself
+//@ func (*WatcherHub).AddWatcher$1()
+//@   props C19 C05
+//@   nosafety
+//@   requires w != nil && w.metricCli != nil
+//@   modifies inferred:(*WatcherHub).AddWatcher$1
 //@ func (*WatcherHub).DeleteWatcher(sub, lock)
 //@   props C19 C05
 //@   nosafety
